@@ -179,7 +179,24 @@ func (c09) Generate(seed uint64, tier string, index int) any {
 	// exclude rules that protect extraneous entries (and may hide source entries)
 	if g.R.Intn(3) == 0 && len(sc.Dst.Entries) > 0 {
 		e := sc.Dst.Entries[g.R.Intn(len(sc.Dst.Entries))]
-		sc.Opts = append(sc.Opts, "--exclude="+filepath.Base(string(e.Path)))
+		rule := filepath.Base(string(e.Path))
+		if p := string(e.Path); strings.Contains(p, "/") && g.R.Bool() {
+			// a rule with a slash names one path; used only when no other path
+			// of either tree ends in it (where tail matching and exact
+			// comparison agree)
+			unique := true
+			for _, t := range []*fstree.Tree{&sc.Src, &sc.Dst} {
+				for _, o := range t.Entries {
+					if q := string(o.Path); q != p && strings.HasSuffix(q, "/"+p) {
+						unique = false
+					}
+				}
+			}
+			if unique {
+				rule = p
+			}
+		}
+		sc.Opts = append(sc.Opts, "--exclude="+rule)
 	}
 	min := 0
 	if arr == "A1" || arr == "A2" {
